@@ -82,13 +82,13 @@ func jsonObjectLike(b []byte) bool {
 // MalformedBinaryBodies: byte strings that are not a valid protobuf encoding of the request.
 func MalformedBinaryBodies(rnd *rand.Rand, n int) [][]byte {
 	out := [][]byte{
-		{0xff, 0xff, 0xff, 0xff, 0x0f, 0x01},           // field number out of range / bad wire type
-		{0x22, 0x0a, 'a', 'b', 'c'},                     // field 4 (string), length 10, only 3 bytes
-		{0x22, 0x02, 0xff, 0xfe},                        // field 4 string with invalid UTF-8
+		{0xff, 0xff, 0xff, 0xff, 0x0f, 0x01}, // field number out of range / bad wire type
+		{0x22, 0x0a, 'a', 'b', 'c'},          // field 4 (string), length 10, only 3 bytes
+		{0x22, 0x02, 0xff, 0xfe},             // field 4 string with invalid UTF-8
 		{0x08, 0xff, 0xff, 0xff, 0xff, 0xff, 0xff, 0xff, 0xff, 0xff, 0xff, 0xff}, // varint too long
-		{0x0b},                                          // start group without end
-		{0x0f},                                          // wire type 7
-		{0x22, 0xff, 0xff, 0xff, 0xff, 0x7f},           // huge length
+		{0x0b},                               // start group without end
+		{0x0f},                               // wire type 7
+		{0x22, 0xff, 0xff, 0xff, 0xff, 0x7f}, // huge length
 	}
 	for i := 0; i < 6; i++ {
 		b := make([]byte, 1+rnd.Intn(12))
